@@ -69,28 +69,46 @@ fn line_changes(patched_file: &PatchedFile) -> Vec<LineChange> {
     line_changes
 }
 
-/// Returns sorted character ranges in `new` that represent changes from `old`.
+/// Returns sorted byte ranges in `new` that represent changes from `old`.
 fn line_diff(old: &str, new: &str) -> Vec<Range<usize>> {
     let mut result = Vec::new();
     let diff = similar::TextDiff::from_chars(old, new);
+    // The diff works on characters while positions in the source code are byte offsets:
+    // `byte_offsets[i]` is the byte offset of the i-th character of `new`.
+    let byte_offsets: Vec<usize> = new
+        .char_indices()
+        .map(|(offset, _)| offset)
+        .chain(std::iter::once(new.len()))
+        .collect();
+    let chars_count = byte_offsets.len() - 1;
     let mut prev_op = None;
     for op in diff.ops() {
         match op {
             DiffOp::Delete { new_index, .. } => {
                 if prev_op.is_none_or(|c: &DiffOp| !matches!(c, DiffOp::Delete { .. })) {
-                    let idx = new.len().saturating_sub(1).min(*new_index);
-                    push_or_merge_range(&mut result, idx..idx + 1);
+                    let idx = chars_count.saturating_sub(1).min(*new_index);
+                    push_or_merge_range(
+                        &mut result,
+                        byte_offsets[idx]
+                            ..byte_offsets[(idx + 1).min(chars_count)].max(byte_offsets[idx] + 1),
+                    );
                 }
             }
             DiffOp::Insert {
                 new_index, new_len, ..
             } => {
-                push_or_merge_range(&mut result, *new_index..(new_index + new_len));
+                push_or_merge_range(
+                    &mut result,
+                    byte_offsets[*new_index]..byte_offsets[new_index + new_len],
+                );
             }
             DiffOp::Replace {
                 new_index, new_len, ..
             } => {
-                push_or_merge_range(&mut result, *new_index..(new_index + new_len));
+                push_or_merge_range(
+                    &mut result,
+                    byte_offsets[*new_index]..byte_offsets[new_index + new_len],
+                );
             }
             DiffOp::Equal { .. } => {}
         }
